@@ -447,6 +447,39 @@ fn run(ctx: &mut Ctx) {
             );
         }
     }
+    // import with a configuration made of several matching fragments: one common fragment plus 2, 3 or 4 fragments whose
+    // paths have the SAME length (per-card / per-year / per-month / per-bank) and which disagree on the account and on an
+    // overlapping rewrite rule: the merge order among equals is the document order, every time
+    {
+        let mdir = dir.join(format!("frags-{}", ctx.shard));
+        for k in 2..=4usize {
+            let keys = ["visa_", "2024_", "_jan_", "bank_"];
+            let mut cfg = String::from("path: \"csv/\"\nencoding: UTF-8\naccount: \"Assets:Common\"\naccount_type: asset\ncommodity: CHF\nformat:\n  date: \"%Y-%m-%d\"\n  fields:\n    date: Date\n    payee: Payee\n    amount: Amount\nrewrite: []\n");
+            for (i, key) in keys.iter().take(k).enumerate() {
+                cfg.push_str(&format!("---\npath: \"{}\"\naccount: \"Assets:Frag{}\"\nrewrite:\n  - matcher:\n      payee: Shop\n    account: \"Expenses:Rule{}\"\n", key, i, i));
+            }
+            let tick_ctx: *const Ctx = ctx;
+            let tick = move || unsafe { (*tick_ctx).tick() };
+            ctx.case(
+                || format!("[free-running sample, {} fresh processes] $ okane import --config c.yml csv/bank_visa_2024_jan_.csv ({} matching fragments with paths of equal length)\n{}", runs * 2, k, cfg),
+                || {
+                    std::fs::create_dir_all(mdir.join("csv")).expect("mkdir");
+                    let cp = mdir.join("c.yml");
+                    let sp = mdir.join("csv").join("bank_visa_2024_jan_.csv");
+                    std::fs::write(&cp, &cfg).expect("write config");
+                    std::fs::write(&sp, "Date,Payee,Amount\n2024-01-05,Shop,-20.50\n2024-01-06,Other,-1.00\n").expect("write statement");
+                    let args: Vec<String> = ["okane", "import", "--config", &cp.to_string_lossy(), &sp.to_string_lossy()].iter().map(|x| x.to_string()).collect();
+                    let o = free_running(&args, runs * 2, &tick);
+                    // (guard against a vacuous sample: the import must have succeeded)
+                    let out = std::process::Command::new(OFF_BINARY).args(&args[1..]).output().expect("spawn okane");
+                    if !out.status.success() {
+                        panic!("harness bug: multi-fragment import sample does not import: {}", String::from_utf8_lossy(&out.stderr));
+                    }
+                    o
+                },
+            );
+        }
+    }
     // import on the repository's own statement samples
     let tdir = "/repo/cli/tests/testdata/import";
     for f in ["csv_multi_currency.csv", "csv_template.csv", "index_amount.csv", "label_credit_debit.csv", "iso_camt.xml", "viseca.txt"] {
